@@ -458,6 +458,30 @@ def r12_error_names_its_place(rep, facts):
     rep.check(R, 'count', n >= 4, f'{n} located messages', f'only {n} Error::custom calls with a message about a document item found')
 
 
+def r13_spanned_transparent(rep, facts):
+    R = rep.rule('C14/R13', 'Spanned<T> compares, orders, hashes and serializes as the T it wraps: the PartialEq, PartialOrd, Ord, Hash and Serialize impls of Spanned read the value only '
+                 '(a hash or comparison that looks at the byte range makes equal values written at different places different keys of a map or set)', floor=5)
+    want = ('core::cmp::PartialEq', 'core::cmp::PartialOrd', 'core::cmp::Ord', 'core::hash::Hash', 'serde::ser::Serialize')
+    seen = set()
+    for imp in facts.impls:
+        st = imp.get('self_ty') or ''
+        tr = (imp.get('trait') or '').split('<')[0]
+        if not st.startswith('serde_spanned::spanned::Spanned') or tr not in want:
+            continue
+        for it in imp['items']:
+            if it['name'] not in ('eq', 'partial_cmp', 'cmp', 'hash', 'serialize') or not facts.has_body(it['def']):
+                continue
+            b = facts.body(it['def'])
+            reads = sorted({x.get('name') for x in walk(b['body']) if x.get('k') == 'field'})
+            seen.add(tr)
+            rep.check(R, f'{last_seg(tr)}::{it["name"]}', reads == ['value'], 'reads the value only', f'`{it["def"]}` reads {reads} of the Spanned wrapper'
+                      + (' (a derived impl)' if b.get('x') else '') + ': two equal values at different places in the document are unequal / hash differently, so wrapping a key or element type in '
+                      'Spanned changes the decoded collection', facts.loc(b))
+    for tr in want:
+        if tr not in seen:
+            rep.bad(R, last_seg(tr), f'no impl of {tr} for Spanned<T> found (the wrapper no longer stands in for the value in this role)')
+
+
 def rules(rep, facts):
     feats = set(facts.crates.get('toml_edit', {}).get('features', []))
     if 'toml_edit' not in facts.crates or 'parse' not in feats:
@@ -476,6 +500,7 @@ def rules(rep, facts):
         r4b_newtype_transparent(rep, facts)
         r4c_spanned_evaluated(rep, facts)
         r12_error_names_its_place(rep, facts)
+        r13_spanned_transparent(rep, facts)
         from .rules_c15 import r1_span_attached
         r1_span_attached(rep, facts)
         rep.relabel('C15/R1', 'C14/R7', 'error locations delivered through serde are the innermost value\'s span: ')
